@@ -60,10 +60,17 @@ static void check_digits_chain(const uint8_t *t, uint64_t n, uint64_t mag, uint3
 int vp_harness_main(void) {
 #if OP == 1
   uint64_t raw = vp_in_u64(); uint64_t v = BITS == 64 ? raw : (raw & (((uint64_t)1 << (BITS % 64)) - 1));
+#ifdef VLO
+  ASSUME(v >= (uint64_t)VLO && v <= (uint64_t)VHI);      /* value range of this query (non-power-of-two radices at 32/64 bits are decided per range) */
+#endif
   uint8_t out[DIGITS + 1];
   uint64_t n = CC_(vp_uint_format_, UT)(out, DIGITS, v, RADIX, UPPER);
   check_digits(out, n, v, RADIX, UPPER);
+#ifdef VLO
+  if (v == (uint64_t)VHI) REACH("largest value of the range");
+#else
   if (v == (BITS == 64 ? ~(uint64_t)0 : (((uint64_t)1 << (BITS % 64)) - 1))) REACH("largest value of the type");
+#endif
 #elif OP == 2 || OP == 3 || OP == 5
   uint64_t raw = vp_in_u64(); uint64_t mag; int neg = 0;
 #if SIGNED
@@ -78,6 +85,9 @@ int vp_harness_main(void) {
 #ifdef VMAX
   ASSUME(mag <= VMAX);
 #endif
+#ifdef VMINU
+  ASSUME(mag >= VMINU);
+#endif
 #define ARG mag
 #endif
   str_t a;
@@ -91,8 +101,10 @@ int vp_harness_main(void) {
 #if OP == 2
   ASSERT((a.f0.f1 >= 1) && ((a.f0.f0[0] == '-') == neg), "a leading '-' exactly for negative values");
   check_digits(a.f0.f0 + neg, a.f0.f1 - (uint64_t)neg, mag, RADIX, UPPER);
-#if SIGNED
+#if SIGNED && !defined(VMIN)
   if (neg && mag == ((uint64_t)1 << (BITS - 1))) REACH("most negative value");
+#elif SIGNED
+  if (sv == VMIN) REACH("smallest value of the range");
 #endif
 #elif OP == 3
   { /* the renderer ST::format uses for this argument type, default spec with the digit class of the radix */
